@@ -18,16 +18,18 @@ func ZZ_C17_resource_attribute_order() {
 	g := zz.U32("group")
 	b := zz.U32("binding")
 	zz.Assume(g < 100000 && b < 100000)
-	ga := parser.Attribute{Name: "group", Args: []parser.Expr{&parser.Literal{Kind: parser.TokenIntLiteral, Value: strconv.FormatUint(uint64(g), 10)}}}
-	ba := parser.Attribute{Name: "binding", Args: []parser.Expr{&parser.Literal{Kind: parser.TokenIntLiteral, Value: strconv.FormatUint(uint64(b), 10)}}}
+	// the literal may carry a type suffix (WGSL: `3`, `3u`, `3i` all denote 3)
+	suffix := []string{"", "u", "i"}[zz.Choice("literal-suffix", 3)]
+	ga := parser.Attribute{Name: "group", Args: []parser.Expr{&parser.Literal{Kind: parser.TokenIntLiteral, Value: strconv.FormatUint(uint64(g), 10) + suffix}}}
+	ba := parser.Attribute{Name: "binding", Args: []parser.Expr{&parser.Literal{Kind: parser.TokenIntLiteral, Value: strconv.FormatUint(uint64(b), 10) + suffix}}}
 	var attrs []parser.Attribute
 	switch zz.Choice("order", 2) {
 	case 0:
 		attrs = []parser.Attribute{ga, ba}
-		zz.Cell("group-then-binding")
+		zz.Cell("group-then-binding" + suffix)
 	default:
 		attrs = []parser.Attribute{ba, ga}
-		zz.Cell("binding-then-group")
+		zz.Cell("binding-then-group" + suffix)
 	}
 	kind := zz.Choice("resource", 3)
 	v := &parser.VarDecl{Name: "res", Attributes: attrs}
